@@ -340,6 +340,28 @@ def r_simdate(E):
             res.findings.append(Finding("R-SIMDATE", "filter strictness",
                                         "the hour of the simulation date itself is dropped from the simulated series",
                                         rel, c.lineno, fn.name))
+    # what the recomputation of a simulation reads is cut at the date: the hourly ancestors outside the chain — and the
+    # *new values of the changes themselves* when they are hourly series (a what-if on the traffic). The methods that
+    # decide what is filtered and what the modelled period is must therefore look at the changes, not only at the
+    # ancestors (which exclude the changed values by construction)
+    from .framework import TxnAnalysis as _TA2
+    T2 = _TA2(pm)
+    res.instances += 1
+    readers = [T2.methods.get(n_) for n_ in ("make_simulation_specific_operations", "compute_hourly_quantities_to_filter",
+                                              "filter_hourly_quantities_to_filter")]
+    sees_changes = any(f_ is not None and any(
+        isinstance(x, ast.Attribute) and norm(x.value) == "self" and x.attr in ("changes_list", "new_sourcevalues")
+        for x in ast.walk(f_)) for f_ in readers)
+    if not sees_changes:
+        f0 = T2.methods.get("compute_hourly_quantities_to_filter") or fn
+        res.findings.append(Finding(
+            "R-SIMDATE", "new hourly values of the changes are not filtered",
+            "the series cut at the simulation date, and the modelled period the date is tested against, are taken from the "
+            "ancestors outside the recomputation chain only — which exclude the changed values by construction — and "
+            "nothing looks at the new values of the changes: a what-if that replaces an hourly input "
+            "(hourly_usage_journey_starts) recomputes from the whole new series, so simulated values contain hours before "
+            "the date; when that input is the only hourly ancestor the period is (None, None) and the test raises TypeError",
+            T2.rel, f0.lineno, "ModelingUpdate.compute_hourly_quantities_to_filter"))
     rel, fn = pm.find_function(MU, "ModelingUpdate.compute_hourly_quantities_to_filter")
     res.instances += 1
     sel = [n.test for n in ast.walk(fn) if isinstance(n, ast.If) and "simulation_date" in norm(n.test)
